@@ -190,6 +190,11 @@ func c20Cases(run *core.Run) []cliCase {
 	add("bundle", []treeFile{{Path: "a.js", Data: js}, {Path: "b.js", Data: "let z = 3 ;\n"}}, nil, "-b", "-o", "out.js", "a.js", "b.js")
 	add("bundle-onto-first", []treeFile{{Path: "a.js", Data: js}, {Path: "b.js", Data: "let z = 3 ;\n"}}, nil, "-b", "-o", "a.js", "a.js", "b.js")
 	add("bundle-onto-second", []treeFile{{Path: "a.js", Data: js}, {Path: "b.js", Data: "let z = 3 ;\n"}}, nil, "-b", "-o", "b.js", "a.js", "b.js")
+	// the backup rename cannot succeed: name.bak is a directory, or the name is too long to take a suffix
+	add("bak-is-directory", []treeFile{{Path: "f.css", Data: css}, {Path: "f.css.bak/keep.txt", Data: "k"}}, nil, "-o", "f.css", "f.css")
+	add("bak-is-directory-dir", []treeFile{{Path: "w/f.css", Data: css}, {Path: "w/f.css.bak/keep.txt", Data: "k"}, {Path: "w/g.js", Data: js}}, nil, "-r", "-o", "w/", "w/")
+	longName := strings.Repeat("n", 248) + ".css"
+	add("name-too-long-for-bak", []treeFile{{Path: longName, Data: css}, {Path: "g.js", Data: js}}, nil, "-o", ".", longName, "g.js")
 	add("bundle-empty-middle-onto-last", []treeFile{{Path: "a.js", Data: js}, {Path: "empty.js", Data: ""}, {Path: "c.js", Data: "let z = 3 ;\n"}}, nil, "-b", "-o", "c.js", "a.js", "empty.js", "c.js")
 	add("bundle-empty-first-onto-last", []treeFile{{Path: "empty.js", Data: ""}, {Path: "b.js", Data: js}, {Path: "c.js", Data: "let z = 3 ;\n"}}, nil, "-b", "-o", "c.js", "empty.js", "b.js", "c.js")
 	add("bundle-css-onto-last", []treeFile{{Path: "a.css", Data: css}, {Path: "b.css", Data: "p { top : 0px }"}, {Path: "c.css", Data: "q{}"}}, nil, "-b", "-o", "c.css", "a.css", "b.css", "c.css")
@@ -613,7 +618,7 @@ func C20(run *core.Run) {
 		if run.Thorough() {
 			maxW = 6
 		}
-		for _, fault := range [][2]string{{"write", "ENOSPC"}, {"write", "EIO"}, {"read", "EIO"}} {
+		for _, fault := range [][2]string{{"write", "ENOSPC"}, {"write", "EIO"}, {"read", "EIO"}, {"renameat", "EXDEV"}, {"renameat", "EACCES"}} {
 			sc, errno := fault[0], fault[1]
 			for n := 1; n <= maxW; n++ {
 				eroot := fresh("err")
